@@ -24,11 +24,53 @@ MUTANTS = [
      "                in_message,\n                override_current_iteration,\n                override_starting_repetition,\n                1,\n            )\n\n    def accept(\n        self,\n        visitor: \"fandango.language.grammar.node_visitors.node_visitor.NodeVisitor[fandango.language.grammar.node_visitors.node_visitor.AggregateType, fandango.language.grammar.node_visitors.node_visitor.ResultType]\",\n    ) -> Any:  # should be ResultType, beartype falls on its face\n        return visitor.visitPlus(self)", "Plus.fuzz"),
 ]
 
+S = "src/fandango/language/search.py"
+# (name, file, (anchor, anchor, ..., old), new, function): `old` is replaced at its first occurrence after the anchors
+MUTANTS += [
+    ("attr_find_uses_find", S, ("class AttributeSearch", "def find(", "self.attribute.find_direct(t,"), "self.attribute.find(t,", "AttributeSearch.find"),
+    ("attr_find_direct_bases_by_find", S, ("class AttributeSearch", "def find_direct(", "self.base.find_direct(tree,"), "self.base.find(tree,", "AttributeSearch.find_direct"),
+    ("descendant_drops_scope", S, ("class DescendantAttributeSearch", "def find(", "self.attribute.find(t, scope=scope,"), "self.attribute.find(t,", "DescendantAttributeSearch.find"),
+    ("descendant_first_tree_only", S, ("class DescendantAttributeSearch", "def find(", "                )\n"), "                )\n                break\n", "DescendantAttributeSearch.find"),
+    ("descendant_prepends", S, ("class DescendantAttributeSearch", "def find_direct(", "                targets.extend(\n                    self.attribute.find(t, scope=scope, population=population)\n                )"),
+     "                targets = self.attribute.find(t, scope=scope, population=population) + targets", "DescendantAttributeSearch.find_direct"),
+]
+
+
+# harmless edits: must NOT fail an obligation (verified or undecided are both acceptable, an alarm is not)
+EQUIVALENT = [
+    ("eq_terminal_named_leaf", N + "terminal.py", "                parent.add_child(DerivationTree(self.symbol))\n", "                leaf = DerivationTree(self.symbol)\n                parent.add_child(leaf)\n", "TerminalNode.fuzz"),
+    ("eq_nt_concat_instead_of_add_child", N + "non_terminal.py", "        parent.add_child(current_tree)\n        grammar[self.symbol]", "        parent.set_children(parent.children + [current_tree])\n        grammar[self.symbol]", "NonTerminalNode.fuzz"),
+    ("eq_cat_renamed_local", N + "concatenation.py", ("def fuzz(",), None, "Concatenation.fuzz"),
+    ("eq_rep_while_loop_tagging", N + "repetition.py", "            for child in parent.children[prev_children_len:]:\n                child.origin_repetitions.insert(\n                    0, (self.id, current_iteration, current_rep)\n                )\n",
+     "            for k in range(prev_children_len, len(parent.children)):\n                parent.children[k].origin_repetitions.insert(\n                    0, (self.id, current_iteration, current_rep)\n                )\n", "Repetition.fuzz"),
+    ("eq_attr_plus_equals", S, ("class AttributeSearch", "def find(", "                targets.extend(\n                    self.attribute.find_direct(t, scope=scope, population=population)\n                )"),
+     "                targets = targets + self.attribute.find_direct(t, scope=scope, population=population)", "AttributeSearch.find"),
+    ("eq_grammar_fuzz_named_node", "src/fandango/language/grammar/grammar.py", "        NonTerminalNode(start, self._grammar_settings).fuzz(\n            root, self, max_nodes=max_nodes\n        )\n",
+     "        start_node = NonTerminalNode(start, self._grammar_settings)\n        start_node.fuzz(root, self, max_nodes=max_nodes)\n", "Grammar.fuzz"),
+]
+
+
+def apply(text, old, new):
+    if new is None:          # special: rename a local everywhere in the file
+        return text.replace("prev_parent_size", "size_before")
+    if isinstance(old, str):
+        return text.replace(old, new) if text.count(old) == 1 else None
+    pos = 0
+    for anchor in old[:-1]:
+        pos = text.find(anchor, pos)
+        if pos < 0:
+            return None
+    k = text.find(old[-1], pos)
+    if k < 0:
+        return None
+    return text[:k] + new + text[k + len(old[-1]):]
+
+
 DRIVER = r'''
 import sys
 sys.path.insert(0, %r)
 from pyvc import run
-run.CONTRACT_MODULES = ["contracts.fuzz"]
+run.CONTRACT_MODULES = ["contracts.fuzz", "contracts.search"]
 sys.exit(run.main(["--only", %r]))
 '''
 
@@ -36,16 +78,17 @@ sys.exit(run.main(["--only", %r]))
 def main():
     scratch = f"/tmp/mutants_fuzz_{os.getpid()}"
     results = []
-    for name, rel, old, new, only in MUTANTS:
+    for name, rel, old, new, only in MUTANTS + EQUIVALENT:
         shutil.rmtree(scratch, ignore_errors=True)
         os.makedirs(scratch)
         shutil.copytree("/repo/src", scratch + "/src")
         p = os.path.join(scratch, rel)
         text = open(p).read()
-        if text.count(old) != 1:
-            results.append((name, f"PATTERN-NOT-FOUND x{text.count(old)}"))
+        mutated = apply(text, old, new)
+        if mutated is None:
+            results.append((name, "PATTERN-NOT-FOUND"))
             continue
-        open(p, "w").write(text.replace(old, new))
+        open(p, "w").write(mutated)
         env = dict(os.environ, VERIF_REPO=scratch, PYTHONPATH=f"{ROOT}:{scratch}/src")
         r = subprocess.run([os.path.join(ROOT, ".venv/bin/python"), "-c", DRIVER % (ROOT, only)], capture_output=True, text=True, env=env)
         bad = [l for l in r.stdout.splitlines() if l.startswith("BAD")]
@@ -53,9 +96,13 @@ def main():
         verdict = "KILLED " + bad[0].split()[1].split("#", 1)[1] if bad else ("undecided " + und[0][:160] if und else "SURVIVED")
         results.append((name, verdict))
     shutil.rmtree(scratch, ignore_errors=True)
+    bad = 0
     for n, v in results:
-        print(f"{n:40s} {v}")
-    return 0 if all(v.startswith("KILLED") for _, v in results) else 1
+        want_alarm = not n.startswith("eq_")
+        okay = v.startswith("KILLED") if want_alarm else not v.startswith("KILLED")
+        bad += not okay
+        print(f"{n:40s} {'' if okay else '!!! '}{v if not (v == 'SURVIVED' and not want_alarm) else 'verified (no alarm)'}")
+    return 1 if bad else 0
 
 
 if __name__ == "__main__":
